@@ -14,7 +14,7 @@ func init() {
 		ID: "C19",
 		Decides: "(R19.1) the center's list of temp databases and its removed list are written only with the center lock held exclusively (or in helpers called only with it held, or the constructor) and read under the lock or through the locked snapshot helpers; " +
 			"(R19.2) every leveldb key builder a reader uses is used by the block writer (and vice versa) — a reader cannot look where nothing is written; every key builder carries each of its parameters in full under its own prefix constant; (R19.3) every read of the center falls back to the same read of the permanent database with the caller's own argument — for the by-block-height suffrage proof the requested height, lowered to lowest-temp-minus-one only when it lies above it; " +
-			"(R19.4) a temp database is published to readers only after its own merge marker write succeeded and only for the height following the newest one; it leaves the list only after the permanent merge succeeded; (R19.5) Center.state consults a temp only if it is newer than the newest holder of the key found so far, replaces the remembered height only by the height of a newer temp that holds the key, and never resets it (closed or empty temps leave it unchanged).; (R19.j) jobs handed to a worker read only captured variables that the submitter does not assign again (no job works on a later batch/slot than the one it was created for); (R19.6) the temps answer a suffrage proof only for the asked suffrage height; (R19.7) the by-block-height read works on one snapshot of the temp list and (R19.8) a block writer's state cache is not shared across heights — R19.7 and R19.8 violated today, known findings; (R19.9) a permanent database reads a state from storage and fills its state cache under the lock its merge holds; (R19.10) the last height answered with the last suffrage proof is the newest database's",
+			"(R19.4) a temp database is published to readers only after its own merge marker write succeeded and only for the height following the newest one; it leaves the list only after the permanent merge succeeded; (R19.5) Center.state consults a temp only if it is newer than the newest holder of the key found so far, replaces the remembered height only by the height of a newer temp that holds the key, and never resets it (closed or empty temps leave it unchanged).; (R19.j) jobs handed to a worker read only captured variables that the submitter does not assign again (no job works on a later batch/slot than the one it was created for); (R19.6) the temps answer a suffrage proof only for the asked suffrage height; (R19.7) the by-block-height read works on one snapshot of the temp list and (R19.8) a block writer's state cache is not shared across heights — R19.8 violated today, known finding; (R19.9) a permanent database reads a state from storage and fills its state cache under the lock its merge holds; (R19.10) the last height answered with the last suffrage proof is the newest database's",
 		NotDecided: "agreement with a model over all histories of writes/merges/removals (needs execution); monotonicity of concurrent reads during merges beyond the snapshot/lock discipline.",
 		Run:        runC19,
 	})
@@ -177,8 +177,11 @@ func runC19(c *Ctx) {
 	if fn := c.Need("isaac/database.(*Center).SuffrageProofByBlockHeight"); fn != nil {
 		calls := c.CallsD(fn, "db.perm.SuffrageProofByBlockHeight(*)")
 		if c.Exists(fn, "falls back to the permanent database's SuffrageProofByBlockHeight", calls, 1) {
+			// the permanent database is asked for the requested height, or for a height lowered to
+			// just below a temp of the snapshot (the blocks of the temps are not in it yet); a
+			// lowering only ever lowers
 			arg := CallArg(calls[0], 0)
-			lowered := "(db.activeTemps()[(len(db.activeTemps()) - 1)].Height() - 1)"
+			lowered := "(db.activeTemps()[*].Height() - 1)"
 			leaves := c.PhiLeafEdges(arg, "*")
 			req := c.PhiLeafEdges(arg, "height")
 			low := c.PhiLeafEdges(arg, lowered)
@@ -186,13 +189,23 @@ func runC19(c *Ctx) {
 			if _, isPhi := arg.(*ssa.Phi); !isPhi {
 				ok = c.D(arg) == "height"
 			}
-			c.Report(fn, "permanent database asked for the requested height (or lowest-temp-minus-one)", c.InstrPos(calls[0]), ok, c.D(arg))
+			c.Report(fn, "permanent database asked for the requested height (or a temp's height minus one)", c.InstrPos(calls[0]), ok, c.D(arg))
 			if len(low) > 0 {
-				c.MPEdge(fn, "the height is lowered only when the requested one lies above the permanent blocks", low, 1, GCmp("height", ">", lowered))
+				c.MPEdge(fn, "the height is lowered only when it lies above the permanent blocks", low, 1, GCmp("*", ">", lowered))
 			}
 		}
-		c.MP(fn, "newer-than-newest height answered not-found without the permanent database", c.CallsD(fn, "db.perm.SuffrageProofByBlockHeight(*)"), 1,
-			GCmp("len(db.activeTemps())", "<=", "0"), GCmp("height", "<=", "db.activeTemps()[0].Height()"))
+		th := "db.activeTemps()[ι].Height()"
+		permCalls := c.CallsD(fn, "db.perm.SuffrageProofByBlockHeight(*)")
+		guardFirst := len(permCalls) > 0 && allOK(c.MustPass(fn, nil, permCalls,
+			GCmp("len(db.activeTemps())", "<=", "0"), GCmp("height", "<=", "db.activeTemps()[0].Height()")))
+		if !guardFirst && len(c.Loops(fn, "(ι < len(db.activeTemps()))")) > 0 {
+			// walk form: the newest live temp (index 0, height below the requested one) ends the read
+			c.ForEach(fn, "newer-than-newest height answered not-found without the permanent database", "(ι < len(db.activeTemps()))", 1,
+				GCmp(th, "<", "base.GenesisHeight"), GCmp(th, "<", "0"), GCmp("ι", "!=", "0"), GCmp("ι", ">", "0"), GCmp("height", "<=", th))
+		} else {
+			c.MP(fn, "newer-than-newest height answered not-found without the permanent database", c.CallsD(fn, "db.perm.SuffrageProofByBlockHeight(*)"), 1,
+				GCmp("len(db.activeTemps())", "<=", "0"), GCmp("height", "<=", "db.activeTemps()[0].Height()"))
+		}
 	}
 	// R19.4 publication ---------------------------------------------------------------------------
 	c.Rule("R19.4", "MustPass")
